@@ -7,6 +7,7 @@ from typing import Dict, List, Optional, Tuple
 
 from .. import otspec
 from ..cfg import cfg_of
+from ..guards import guard_facts
 from ..model import (AnalysisError, Model, calls_in, callee_tail, find_calls, kwarg, norm, short, walk_body)
 from ..report import RULES, RuleResult
 
@@ -389,6 +390,12 @@ def _perm_direction(fi, listname: str, order: str):
     """How `listname` is permuted by the argsort `order` (order[k] = old index of the element that belongs at k):
     'gather' new[k] = old[order[k]]  |  'scatter' new[order[k]] = old[k]  |  None when the idiom is not recognised."""
     found = []
+    # a scratch list that is written back with `listname[:] = scratch` stands for the list itself
+    aliases = {listname}
+    for st in ast.walk(fi.node):
+        if isinstance(st, ast.Assign) and isinstance(st.targets[0], ast.Subscript) and norm(st.targets[0].value) == listname and isinstance(st.targets[0].slice, ast.Slice) \
+                and isinstance(st.value, ast.Name):
+            aliases.add(st.value.id)
     for st in ast.walk(fi.node):
         # X[:] = [X[i] for i in order]  /  X[:] = [E[i] for i in order]
         if isinstance(st, ast.Assign) and isinstance(st.targets[0], ast.Subscript) and norm(st.targets[0].value) == listname and isinstance(st.targets[0].slice, ast.Slice) \
@@ -400,7 +407,7 @@ def _perm_direction(fi, listname: str, order: str):
                 and isinstance(st.target, ast.Tuple) and len(st.target.elts) == 2:
             k, v = norm(st.target.elts[0]), norm(st.target.elts[1])
             for b in st.body:
-                if isinstance(b, ast.Assign) and isinstance(b.targets[0], ast.Subscript) and norm(b.targets[0].value) == listname and isinstance(b.value, ast.Subscript):
+                if isinstance(b, ast.Assign) and isinstance(b.targets[0], ast.Subscript) and norm(b.targets[0].value) in aliases and isinstance(b.value, ast.Subscript):
                     ti, vi = norm(b.targets[0].slice), norm(b.value.slice)
                     if (ti, vi) == (k, v):
                         found.append("gather")
@@ -523,3 +530,67 @@ def r11f(model: Model, rr: RuleResult):
                 rr.ok(f"{qn}: `{short(lp, 60)}` has no early exit")
     if n < 4:
         raise AnalysisError(f"R11f: only {n} loops found in the reordering pass")
+    # the walker yields every table it dequeues and enqueues every child: nothing is filtered (forward offsets cannot cycle; `in` on a list of tables
+    # would compare by *content*, so a twin subtable would be skipped)
+    tfi = model.func("util", "_traverse_ot_data")
+    tcfg = cfg_of(tfi)
+    ys = [x for x in walk_body(tfi) if isinstance(x, (ast.Yield, ast.YieldFrom))]
+    if len(ys) != 1:
+        raise AnalysisError("_traverse_ot_data: expected one yield")
+    ystmt = next(st for st in walk_body(tfi) if isinstance(st, ast.Expr) and st.value is ys[0])
+    wtests = {id(w.test) for w in walk_body(tfi) if isinstance(w, ast.While)} | {id(w.iter) for w in walk_body(tfi) if isinstance(w, ast.For)}
+    loop_texts = {norm(w.test) for w in walk_body(tfi) if isinstance(w, ast.While)} | {"deque()", "frontier"}
+    yfacts = [(norm(e), pol) for e, pol in guard_facts(tcfg, tcfg.node_for(ystmt)) if id(e) not in wtests and norm(e) not in loop_texts]
+    conts = [x for x in walk_body(tfi) if isinstance(x, ast.Continue)]
+    app = [c for c in calls_in(tfi) if callee_tail(c) == "append" and norm(c.func.value) == "new_entries"]
+    afacts = [(norm(e), pol) for c in app for e, pol in guard_facts(tcfg, tcfg.node_for(c)) if id(e) not in wtests and norm(e) not in loop_texts]
+    if not yfacts and not conts and app and not afacts:
+        rr.ok("_traverse_ot_data yields every dequeued table and enqueues every sub-table unconditionally")
+    else:
+        rr.bad(tfi, conts[0] if conts else ystmt, f"_traverse_ot_data skips tables ({[f for f, _ in yfacts + afacts] or 'continue'}): a sub-table that compares equal to one already seen "
+               f"(BaseTable.__eq__ compares content) is never handed to the reorder rules and keeps the old glyph order", construct="_traverse_ot_data: conditional yield/enqueue")
+
+
+SET_GLYPH_ORDER_OK = {
+    ("reorder_glyphs", "reorder_glyphs"): "the reordering pass itself: followed by the walk over GDEF/GPOS/GSUB/MATH",
+    ("glue_together", "_copy_colr"): "appends new glyphs at the end: no existing glyph changes its id (R12e checks the operand)",
+}
+
+
+@RULES.rule("C11", "R11g", "a compiled font's glyph order is changed only by reorder_glyphs (which re-sorts the layout tables) or by appending", floor=2)
+def r11g(model: Model, rr: RuleResult):
+    """TTFont.setGlyphOrder renumbers glyphs but leaves every coverage-sorted structure in the old order.  A caller that applies the new order itself
+    makes reorder_glyphs see an already-reordered font (and a harmless 'nothing to do' shortcut there would then skip the whole pass)."""
+    seen = 0
+    for mname, mod in sorted(model.modules.items()):
+        for fi in mod.functions.values():
+            if "." in fi.qualname and fi.qualname.rsplit(".", 1)[0] in mod.functions:
+                continue
+            for c in calls_in(fi, nested=True):
+                if callee_tail(c) != "setGlyphOrder":
+                    continue
+                seen += 1
+                why = SET_GLYPH_ORDER_OK.get((mname, fi.qualname))
+                if why is None:
+                    rr.bad(fi, c, f"{short(c, 60)} in {mname}.{fi.qualname}: the glyph order of a compiled font is changed outside reorder_glyphs; GSUB/GPOS/GDEF/MATH coverages and "
+                           f"their parallel arrays keep the old order (or reorder_glyphs, called afterwards, finds nothing left to move)", construct=f"{mname}.{fi.qualname}: setGlyphOrder")
+                elif (mname, fi.qualname) == ("glue_together", "_copy_colr"):
+                    a = norm(c.args[0]) if c.args else ""
+                    recv = norm(c.func.value)
+                    if a.startswith(f"{recv}.getGlyphOrder() + "):
+                        rr.ok(f"{mname}.{fi.qualname}: {short(c, 70)} appends to the existing order")
+                    else:
+                        rr.bad(fi, c, f"{short(c, 70)} is not `old order + new glyphs`: existing glyph ids would move without the layout tables being re-sorted", construct="_copy_colr: setGlyphOrder operand")
+                else:
+                    rr.ok(f"{mname}.{fi.qualname}: {why}")
+    if seen < 2:
+        raise AnalysisError(f"R11g: only {seen} setGlyphOrder call(s) found")
+    # inside reorder_glyphs the table walk follows setGlyphOrder on every path
+    fi = model.func("reorder_glyphs", "reorder_glyphs")
+    cfg = cfg_of(fi)
+    sgo = [c for c in calls_in(fi) if callee_tail(c) == "setGlyphOrder"]
+    loops = [st for st in walk_body(fi) if isinstance(st, ast.For) and any(callee_tail(c) == "apply" for c in calls_in(st, nested=True))]
+    if len(sgo) == 1 and len(loops) >= 1 and cfg.dominates(cfg.node_for(sgo[0]), cfg.node_for(loops[0])) and cfg.postdominates(cfg.node_for(loops[0]), cfg.node_for(sgo[0])):
+        rr.ok("reorder_glyphs: setGlyphOrder is always followed by the walk that applies the reorder rules")
+    else:
+        rr.bad(fi, fi.node, "reorder_glyphs can set the new glyph order without walking the layout tables", construct="reorder_glyphs: setGlyphOrder not followed by the rule loop")
